@@ -248,13 +248,17 @@ func (u *uploader) createReport(start time.Time, expiryDate string, countFiles [
 		u.deleteFiles(countFiles)
 		return "", fmt.Errorf("report %s already exists", uploadFileName)
 	}
-	// write the uploadable file
+	// Write the local file first: it marks the week as reported. If the
+	// uploadable file came first, a concurrent uploader could upload and remove
+	// it before the local file exists, and a third uploader (which may already
+	// see only some of the week's count files, the others having been deleted)
+	// would find neither and build a second, different report for the week.
 	var errUpload, errLocal error
+	_, errLocal = exclusiveWrite(localFileName, localContents)
+	// write the uploadable file
 	if uploadOK {
 		_, errUpload = exclusiveWrite(uploadFileName, uploadContents)
 	}
-	// write the local file
-	_, errLocal = exclusiveWrite(localFileName, localContents)
 	/*  Wrote the files */
 
 	// even though these errors won't occur, what should happen
